@@ -139,7 +139,7 @@ def _reuse(rep, w, items, seed, pname, h):
 def correspondence(ctx):
     rep = ctx.report
     rep.rules.append(RULE)
-    _teardown(ctx, rep, ['basic', 'fleet', 'projheavy', 'long', 'three-fits-decimal', 'pymods'], ctx.n(40, 800), 'teardown')
+    _teardown(ctx, rep, ['basic', 'fleet', 'fleetheavy', 'projheavy', 'long', 'three-fits-decimal', 'pymods'], ctx.n(35, 700), 'teardown')
 
 
 def _k1_residue_witness(rep):
